@@ -6,6 +6,8 @@ import numpy as np
 from harness.common import run_guarded
 from harness import level2 as l2
 from harness import l2_real as lr
+from harness import batch_corr as bc
+from harness import numeric_battery as nb
 from harness import octa
 from harness.octa import clist
 from harness.shrink import shrink_list
@@ -174,6 +176,7 @@ def run(ctx):
                          "than one element. real: every (source, path index, sensor, pixel) element of a vectorised "
                          "getB/getH/getJ/getM call on real classes compared with the isolated static single call")
     ctx.trusted += [
+        "translator translate/gen_l2arith.py (python expressions of the level-2 data flow -> deep embedding pyexp)",
         "translator translate/gen_batch.py (inventory of batch-level constructs by syntactic pattern; structural "
         "translation of the TriangularMesh grouping loop bounds, cel/cel_iter switches, CylinderSegment exit order)",
         "hand model coq/Model/Level2Model.v of getBH_level2 (grouping, tiling, scatter, collection loop, sensor "
@@ -182,7 +185,7 @@ def run(ctx):
         "inventory and the vectorised-vs-single search",
         "closed-form cores (what a row computes) are abstract row-wise functions in every theorem",
     ]
-    ok = ctx.regen(["GenBatch"])
+    ok = ctx.regen(["GenBatch", "GenL2Arith"])
     built = ctx.build_props() and ok
     if built:
         ctx.refuted += ["C06_cel_switch_refuted", "C06_cel_iterv_refuted"]
@@ -252,6 +255,28 @@ def run(ctx):
         return cases
 
     cases = run_guarded(ctx, corr, "C06 correspondence") or []
+
+    def batch_stage():
+        if not built:
+            return
+        bad = bc.run(ctx, ctx.n(60, 600)) or []
+        for kind, case, out in bad[:4]:
+            # is the real function (with row-wise stub cores) itself not row-wise on this input?
+            single = None
+            if kind == "cvf":
+                single = [bc.run_cvf([r])[0] for r in case]
+            elif kind == "tm":
+                single = [bc.run_tm(dict(case, rows=[r]))[0] for r in case["rows"]]
+            if single is not None and single != out:
+                fn = "current_vertices_field" if kind == "cvf" else "BHJM_magnet_trimesh"
+                ctx.impl_fail(f"row-independent/stub-cores:{fn}",
+                              f"{fn} with row-wise integer stub cores: batch result {out} differs from row-by-row {single}",
+                              {"kind": "batch-stub", "which": kind, "case": case})
+            else:
+                ctx.add_broken("broken-correspondence", f"BatchModel ({kind}) vs implementation", json.dumps([case, out]))
+    run_guarded(ctx, batch_stage, "C06 batch-model correspondence")
+    # dedicated batched-vs-single batteries for the code paths with verdict NumericOnly in the inventory
+    run_guarded(ctx, lambda: nb.run(ctx, ctx.n(60, 1500) * (4 if ctx.broken else 1)), "C06 numeric batteries")
     big = bool(ctx.broken)
     run_guarded(ctx, lambda: exact_oracle(ctx, cases, ctx.n(40, 400) * (5 if big else 1)), "C06 exact oracle")
     run_guarded(ctx, lambda: real_sweep(ctx, ctx.n(45, 600) * (4 if big else 1), ctx.n(42, 420) * (3 if big else 1)),
@@ -268,6 +293,22 @@ def replay(ctx, obj):
         if mm:
             print("VIOLATION property=C06 replay=given")
         return 1 if mm else 0
+    if rp.get("kind") == "battery":
+        ok, batch, single = nb.replay(rp)
+        print("replay:", "row-wise on this input" if ok else f"FAILS: batch {batch.tolist()} row-by-row {single.tolist()}")
+        if not ok:
+            print("VIOLATION property=C06 replay=given")
+        return 0 if ok else 1
+    if rp.get("kind") == "batch-stub":
+        case = rp["case"]
+        if rp["which"] == "cvf":
+            out, single = bc.run_cvf(case), [bc.run_cvf([r])[0] for r in case]
+        else:
+            out, single = bc.run_tm(case), [bc.run_tm(dict(case, rows=[r]))[0] for r in case["rows"]]
+        print("replay:", "row-wise on this input" if out == single else f"FAILS: batch {out} row-by-row {single}")
+        if out != single:
+            print("VIOLATION property=C06 replay=given")
+        return 0 if out == single else 1
     if rp.get("kind") == "exact":
         c = rp["case"]
         got = l2.impl_run(c)
